@@ -24,7 +24,9 @@ CONSTANTS Instances,        \* set of instance records
           MaxInstants,      \* bound on Len(time) within one epoch
           MaxEpochs,        \* number of epochs (resets + 1)
           MaxSolvers,
-          RunLengths        \* set of step counts a run may request
+          RunLengths,       \* set of step counts a run may request
+          UserPwms,         \* duty cycles the USER may assign to the motor between two calls (empty: never)
+          UserStates        \* [pos, spd] the user may re-index the output to between a run and its continuation (empty: never)
 VARIABLES inst, time, hist, attr, solvers, run, epochs, lastSid
 vars == <<inst, time, hist, attr, solvers, run, epochs, lastSid>>
 
@@ -82,11 +84,16 @@ StopTrue(X) == inst.stop.sensor # "none" /\
      [] inst.stop.op = "lt" -> c < 0 [] inst.stop.op = "le" -> c <= 0
 
 (* ---- actions ---- *)
+NoBase == [pos |-> SNull, spd |-> SNull, acc |-> SNull]
 Init == /\ inst \in Instances
         /\ time = <<>> /\ hist = <<>> /\ solvers = <<>> /\ run = [t |-> "none"] /\ epochs = <<>> /\ lastSid = 0
         /\ attr = [pwm |-> "1", tq |-> SNull, pos |-> inst.pos0, spd |-> inst.spd0, acc |-> "0", lk |-> FALSE,
-                   prevLk |-> FALSE, inForce |-> "0", moved |-> FALSE]
+                   prevLk |-> FALSE, inForce |-> "0", moved |-> FALSE,
+                   touched |-> FALSE, edited |-> FALSE, prevEdited |-> FALSE, base |-> NoBase]
 
+\* more ghost fields: touched = the user intervened somewhere in this behaviour (C12 speaks about schedules of run / continue /
+\* reset / rerun only); edited / prevEdited = the output was re-indexed since / before the newest instant; base = the state the
+\* newest instant was integrated from (the live attributes at that moment - not necessarily the previous recorded instant)
 NewSolver == /\ run.t = "none" /\ Len(solvers) < MaxSolvers
              /\ solvers' = Append(solvers, FALSE)
              /\ UNCHANGED <<inst, time, hist, attr, run, epochs, lastSid>>
@@ -94,10 +101,11 @@ NewSolver == /\ run.t = "none" /\ Len(solvers) < MaxSolvers
 \* ghost fields of attr (history variables, used by invariants and by the refinement of LockAbs): lk = the lock bit under which
 \* the newest instant was computed, prevLk = the bit before that decision, inForce = the duty cycle the decision read,
 \* moved = did the position change from the previous instant
-Record(c, lkPrev, pwmF, w) ==
+Record(c, lkPrev, pwmF, w, base) ==
              /\ hist' = Append(hist, c.X)
              /\ attr' = [pwm |-> c.X.pwm, tq |-> c.X.el[1].T, pos |-> c.X.el[NN].pos, spd |-> c.X.el[NN].spd, acc |-> c.X.el[NN].acc,
-                         lk |-> c.lk, prevLk |-> lkPrev, inForce |-> pwmF, moved |-> (hist # <<>> /\ RSign(w) # 0)]
+                         lk |-> c.lk, prevLk |-> lkPrev, inForce |-> pwmF, moved |-> (hist # <<>> /\ RSign(w) # 0),
+                         touched |-> attr.touched, edited |-> FALSE, prevEdited |-> attr.edited, base |-> base]
 
 \* Solver.run(dt, n*dt): fresh (time empty: instant 0 is computed now, from an UNLOCKED solver) or continuation
 RunBegin(s, n) ==
@@ -109,7 +117,7 @@ RunBegin(s, n) ==
      THEN LET c == ComputeInstant("0", attr.pos, attr.spd, attr.pwm, attr.tq, FALSE, 1, SNull) IN
           /\ time' = <<"0">>
           /\ IF c.conflict THEN /\ run' = [t |-> "error"] /\ UNCHANGED <<hist, attr>> /\ solvers' = [solvers EXCEPT ![s] = c.lk]
-             ELSE /\ Record(c, FALSE, attr.pwm, attr.spd) /\ solvers' = [solvers EXCEPT ![s] = c.lk]
+             ELSE /\ Record(c, FALSE, attr.pwm, attr.spd, NoBase) /\ solvers' = [solvers EXCEPT ![s] = c.lk]
                   /\ run' = [t |-> "running", sid |-> s, left |-> n, first |-> 1]
      ELSE /\ run' = [t |-> "running", sid |-> s, left |-> n, first |-> Len(time) + 1]
           /\ UNCHANGED <<time, hist, attr, solvers>>
@@ -125,7 +133,7 @@ Step ==
      /\ time' = Append(time, t)
      /\ solvers' = [solvers EXCEPT ![run.sid] = c.lk]
      /\ IF c.conflict THEN run' = [t |-> "error"] /\ UNCHANGED <<hist, attr>>
-        ELSE /\ Record(c, solvers[run.sid], attr.pwm, w)
+        ELSE /\ Record(c, solvers[run.sid], attr.pwm, w, [pos |-> attr.pos, spd |-> attr.spd, acc |-> attr.acc])
              /\ IF StopTrue(c.X) \/ run.left = 1 THEN run' = [t |-> "none"]
                 ELSE run' = [run EXCEPT !.left = run.left - 1]
   /\ UNCHANGED <<inst, epochs, lastSid>>
@@ -137,11 +145,20 @@ Reset ==
   /\ epochs' = Append(epochs, [hist |-> hist, time |-> time])
   /\ time' = <<>> /\ hist' = <<>>
   /\ attr' = [pwm |-> hist[1].pwm, tq |-> hist[1].el[1].T, pos |-> inst.pos0, spd |-> inst.spd0, acc |-> hist[1].el[NN].acc, lk |-> FALSE,
-               prevLk |-> FALSE, inForce |-> "0", moved |-> FALSE]
+               prevLk |-> FALSE, inForce |-> "0", moved |-> FALSE,
+               touched |-> attr.touched, edited |-> FALSE, prevEdited |-> FALSE, base |-> NoBase]
   /\ lastSid' = 0
   /\ UNCHANGED <<inst, solvers, run>>
 
-Next == NewSolver \/ (\E s \in 1..MaxSolvers, n \in RunLengths : RunBegin(s, n)) \/ Step \/ Reset
+\* between two calls the user assigns another duty cycle (motor.pwm = d) ...
+UserPwm == /\ run.t = "none" /\ \E d \in UserPwms : d # attr.pwm /\ attr' = [attr EXCEPT !.pwm = d, !.touched = TRUE]
+           /\ UNCHANGED <<inst, time, hist, solvers, run, epochs, lastSid>>
+\* ... or re-indexes the output between a run and its continuation (last element's angular_position / angular_speed assigned)
+UserReindex == /\ run.t = "none" /\ time # <<>> /\ ~attr.edited
+               /\ \E st \in UserStates : attr' = [attr EXCEPT !.pos = st.pos, !.spd = st.spd, !.touched = TRUE, !.edited = TRUE]
+               /\ UNCHANGED <<inst, time, hist, solvers, run, epochs, lastSid>>
+
+Next == NewSolver \/ (\E s \in 1..MaxSolvers, n \in RunLengths : RunBegin(s, n)) \/ Step \/ Reset \/ UserPwm \/ UserReindex
 Spec == Init /\ [][Next]_vars
 
 (* ---- properties ---- *)
@@ -151,13 +168,17 @@ Held(j) == \A i \in 1..NN : RSign(hist[j].el[i].spd) = 0 /\ RSign(hist[j].el[i].
 C01_Coupled == hist # <<>> => CoupledFails(Ch, Newest, "0") = {}
 C02_Torques == hist # <<>> => TorqueFails(Ch, inst.ld, Newest, "0") = {}
 \* C03: acceleration from net torque / equivalent inertia unless held; time-step update from the previous instant
+\* (the step starts from the live attributes - `base' - which are the previous recorded instant unless the user re-indexed)
 C03_Motion == Len(hist) >= 2 =>
-   LET P == hist[Len(hist) - 1]  X == Newest IN
-   DynFails(Ch, X, attr.lk, "0") = {} /\ StepFails(Ch, P, X, inst.dt, attr.lk, "0") = {}
+   LET P0 == hist[Len(hist) - 1]  X == Newest
+       P == [P0 EXCEPT !.el[NN].pos = attr.base.pos, !.el[NN].spd = attr.base.spd, !.el[NN].acc = attr.base.acc] IN
+   /\ DynFails(Ch, X, attr.lk, "0") = {} /\ StepFails(Ch, P, X, inst.dt, attr.lk, "0") = {}
+   /\ (~attr.prevEdited => P = P0)
 \* C11: the time axis is the grid k dt
 C11_Grid == \A j \in (IF time = <<>> THEN {} ELSE {Len(time)}) : time[j] = RMul(RFromInt(j - 1), inst.dt)
 \* C13: the recorded motor speed is never opposite to the duty cycle in force; nothing is clamped without self-locking
-C13_SignSafe == (SLflag /\ Len(hist) >= 2) => SignSafe(hist[Len(hist) - 1].pwm, Newest.el[1].spd)
+\* (the duty cycle in force at a decision is the live attribute: the previous recorded one unless the user assigned another)
+C13_SignSafe == (SLflag /\ hist # <<>>) => SignSafe(attr.inForce, Newest.el[1].spd)
 C13_NoClamp == ~SLflag => \A s \in 1..Len(solvers) : ~solvers[s]
 C13_HeldMeansStill == (hist # <<>> /\ attr.lk) => Held(Len(hist))
 \* C14: every recorded duty cycle lies in [-1, 1]
@@ -176,9 +197,10 @@ LA == INSTANCE LockAbs WITH
         lk <- IF hist = <<>> THEN FALSE ELSE attr.lk,
         pwm <- Sgn(attr.pwm),
         tq <- IF attr.tq = SNull THEN SNull ELSE Sgn(attr.tq),
-        spd <- IF hist = <<>> THEN Sgn(attr.spd) ELSE Sgn(Newest.el[1].spd),
+        spd <- IF hist = <<>> \/ attr.edited THEN Sgn(attr.spd) ELSE Sgn(Newest.el[1].spd),
         acc <- IF hist = <<>> THEN "0" ELSE Sgn(attr.acc),
-        moved <- attr.moved, prevLk <- attr.prevLk, inForce <- Sgn(attr.inForce)
+        moved <- attr.moved, prevLk <- attr.prevLk, inForce <- Sgn(attr.inForce),
+        edited <- attr.edited, prevEdited <- attr.prevEdited
 RefinesLockAbs == LA!ASpec
 
 \* C12: the recorded history does not depend on how the epoch was cut into runs, on which Solver object made the first
@@ -197,9 +219,12 @@ MatchesRef == hist # <<>> => LET r == Ref(Len(hist)) IN ~r.conflict /\ r.X = New
 \* F4 (known finding, named deviation): Reset restores the FIRST RECORDED duty cycle, the original run started from the motor's
 \* attribute (1); on a self-locking chain the instant-0 lock decision reads it.  The claim is made for every other case.
 F4Case == SLflag /\ epochs # <<>> /\ epochs[1].hist[1].pwm # "1"
-C12_SplitAndRerun == ~F4Case => MatchesRef
+C12_SplitAndRerun == (~F4Case /\ ~attr.touched) => MatchesRef
 \* reachability witness (vacuity guard): TLC must find a state after a reset in which a second Solver has recorded at least three
 \* instants of a held self-locking chain - i.e. "violating" this invariant shows the interesting part of the space is explored
 Witness_DeepRerun == ~(epochs # <<>> /\ Len(hist) >= 3 /\ Len(solvers) = 2 /\ lastSid = 2 /\ SLflag /\ attr.lk)
-C12_Unguarded == MatchesRef            \* used by MC_Solver_F4.cfg: TLC must FIND the F4 counterexample
+\* reachability witness for the user actions: a held self-locking chain that MOVED between two held instants because the user
+\* gave its output a speed, after the user also assigned a duty cycle
+Witness_UserMovesHeld == ~(SLflag /\ attr.prevEdited /\ attr.lk /\ attr.prevLk /\ attr.moved /\ attr.inForce \in UserPwms)
+C12_Unguarded == ~attr.touched => MatchesRef            \* used by MC_Solver_F4.cfg: TLC must FIND the F4 counterexample
 =============================================================================
